@@ -20,6 +20,9 @@ def main():
     parser.add_argument("--seed", type=int, default=int(os.environ.get("VERIF_SEED") or 0))
     parser.add_argument("--replay")
     args = parser.parse_args()
+    if not os.environ.get("VERIF_PYOPT"):
+        # one seed in five runs the package as `python -O` would (assert statements stripped)
+        os.environ["VERIF_PYOPT"] = "1" if args.seed % 5 == 4 and not args.replay else "0"
     from sim import runner
     from sim.props import PROPS
 
